@@ -22,7 +22,7 @@ RULE = ('synthesized Streett and Rabin implementations of game families A1, '
         'action tables; at EVERY node exactly one edge per next environment '
         'value the environment action allows and none for others; fair-cycle '
         'criterion on all SCCs for synthesized inputs; every edge re-checked '
-        'through Context.let on the real BDDs. non-trivial = graph with >= 2 '
+        'through Context.let on the real BDDs; enumerate_state_machine on closed systems: nodes = reachable valuations, edges = all action steps. non-trivial = graph with >= 2 '
         'nodes; distinct = case description')
 ASSUMPTIONS = ['dd trusted', 'implementations that block (finding F13) are '
                'skipped and counted']
@@ -44,10 +44,16 @@ def shards(tier, seed):
             out.append(s)
     for i in range(len(HAND)):
         out.append(dict(kind='hand', i=i))
+    for i in range(len(ESM)):
+        out.append(dict(kind='esm', i=i))
     return out
 
 
 def cases(shard):
+    if shard['kind'] == 'esm':
+        for be in ('cudd', 'autoref'):
+            yield dict(kind='esm', i=shard['i'], backend=be)
+        return
     if shard['kind'] == 'hand':
         for q in synth.QINITS:
             for moore in (True, False):
@@ -92,7 +98,87 @@ HAND = [
 ]
 
 
+# closed systems for enumerate_state_machine: (decl, init, action)
+ESM = [
+    (dict(x='bool', y=(0, 17)), "x /\\ (y = 1)",
+     "((x /\\ (y = 1)) => (~ x' /\\ (y' = 2))) /\\ "
+     "((~ x /\\ (y = 2)) => (x' /\\ (y' = 1)))"),
+    (dict(y=(0, 2)), "y = 0", "(y' = y + 1) \\/ (y' = 0 /\\ y = 2)"),
+    (dict(y=(-3, 2)), "y < -2", "(y' = y + 2) /\\ (y < 2)"),
+    (dict(y=(-3, -1)), "y = -1 \\/ y = -4", "y' = y - 1 \\/ y' = y"),
+    (dict(p='bool', q='bool'), "p /\\ ~ q", "(p' <=> q) /\\ (q' <=> ~ p)"),
+    (dict(p='bool', y=(0, 2)), "y = 3", "p' => (y' = 0)"),
+    (dict(p='bool', y=(0, 2)), "~ p", "(y' = y) /\\ (p' <=> ~ p)"),
+    (dict(x=(0, 2), y=(-1, 1)), "x = 0 /\\ y = 0",
+     "(x' = x + 1 /\\ y' = y) \\/ (x = 3 /\\ x' = 0 /\\ y' = y - 1 "
+     "/\\ y > -2)"),
+    (dict(y=(0, 2)), "y = 1", "y' # y"),
+]
+
+
+def run_esm(case, acc):
+    import omega.symbolic.temporal as trl
+    import omega.symbolic.prime as prm
+    from omega.games import enumeration as enum
+    decl, init_s, act_s = ESM[case['i']]
+    aut = trl.Automaton()
+    if case['backend'] == 'autoref':
+        import dd.autoref
+        aut.bdd = dd.autoref.BDD()
+    aut.declare_variables(**decl)
+    init = aut.add_expr(init_s)
+    action = aut.add_expr(act_s)
+    g = enum.enumerate_state_machine(init, action, aut)
+    vrs = sorted(prm.vars_in_support(init, aut) |
+                 prm.vars_in_support(action, aut))
+    rd = ro.Reader(aut, vrs)
+    I = rd.table(init)
+    A = ro.Reader(aut, vrs + [prime(v) for v in vrs]).table(action)
+    n = len(vrs)
+    succ = {}
+    for t in A:
+        succ.setdefault(t[:n], set()).add(t[n:])
+    R = set(I)
+    stack = list(I)
+    while stack:
+        s = stack.pop()
+        for t in succ.get(s, ()):
+            if t not in R:
+                R.add(t)
+                stack.append(t)
+    edges = {(s, t) for s in R for t in succ.get(s, ())}
+    nodes = {}
+    for u, d in g.nodes(data=True):
+        if set(d) != set(vrs):
+            acc.ev()
+            acc.violation('node_has_wrong_variables', case,
+                          detail=dict(node=d, expected=vrs))
+            return
+        nodes[u] = tuple(d[v] for v in vrs)
+    acc.ev(dict(c=case), nontrivial=len(R) >= 2)
+    acc.count('states', len(g))
+    acc.count('transitions', g.number_of_edges())
+    acc.count('traces_validated_against_impl', g.number_of_edges())
+    if len(set(nodes.values())) != len(nodes):
+        acc.violation('two_nodes_with_one_valuation', case,
+                      detail=dict(nodes=sorted(nodes.values(), key=repr)))
+        return
+    if set(nodes.values()) != R:
+        acc.violation('enumerated_nodes_differ_from_reachable_states', case,
+                      detail=dict(vars=vrs,
+                                  extra=sorted(set(nodes.values()) - R),
+                                  missing=sorted(R - set(nodes.values()))))
+        return
+    got = {(nodes[u], nodes[v]) for u, v in g.edges()}
+    if got != edges:
+        acc.violation('enumerated_edges_differ_from_action_steps', case,
+                      detail=dict(vars=vrs, extra=sorted(got - edges)[:4],
+                                  missing=sorted(edges - got)[:4]))
+
+
 def run_case(case, acc):
+    if case['kind'] == 'esm':
+        return run_esm(case, acc)
     if case['kind'] == 'hand':
         run_hand(case, acc)
     else:
